@@ -48,6 +48,7 @@ func (f *frame) callContract(st *State, ins *ssa.Call, callee *ssa.Function, con
 		}
 	}
 	// havoc the callee's frame
+	f.callFrame(st, pre, callee, con, env)
 	for _, a := range con.Assigns {
 		f.havocLvalue(st, env, a, callee)
 	}
@@ -61,6 +62,8 @@ func (f *frame) callContract(st *State, ins *ssa.Call, callee *ssa.Function, con
 	if env2.vars == nil {
 		env2.vars = map[string]Val{}
 	}
+	env2.freshExcl = pre.fresh
+	env2.collectFresh = &st.fresh
 	for _, c := range con.Ensures {
 		st.assume(env2.evalBool(c.E))
 	}
@@ -245,5 +248,213 @@ func (p *Program) initValue(ex *Exec, st *State, g *ssa.Global) (Val, bool) {
 // relational mode context (C17)
 type relCtx struct{}
 
-func (r *relCtx) setup(ex *Exec, st *State, f *frame)                     {}
+func (r *relCtx) setup(ex *Exec, st *State, f *frame)                {}
 func (r *relCtx) atReturn(ex *Exec, st *State, f *frame, vals []Val) {}
+
+// runGhost executes the ghost assignments of the function's contract at an anchor.
+func (f *frame) runGhost(st *State, anchor string) {
+	if f.con == nil || f.inlined {
+		return
+	}
+	for _, g := range f.con.Ghosts {
+		if g.Anchor != anchor {
+			continue
+		}
+		env := f.specEnvInv(st)
+		f.ghostAssign(st, env, g)
+	}
+}
+
+func (f *frame) runGhostRet(st *State, vals []Val) {
+	if f.con == nil || f.inlined {
+		return
+	}
+	for _, g := range f.con.Ghosts {
+		if g.Anchor != "return" {
+			continue
+		}
+		env := f.specEnvInv(st)
+		f.bindResults(env, f.fn, vals)
+		f.ghostAssign(st, env, g)
+	}
+}
+
+func (f *frame) ghostAssign(st *State, env *specEnv, g GhostStmt) {
+	ex := f.ex
+	rhs := env.eval(g.RHS)
+	switch l := g.LHS.(type) {
+	case *EIdent:
+		st.ghost[l.Name] = rhs
+		return
+	case *EField:
+		base := env.eval(l.X)
+		if r, ok := base.(VRef); ok {
+			gk := namedKey(r.St) + ".$" + l.Name
+			if ex.prog.heapSorts[gk] != nil {
+				arr := ex.ghostArr(st, gk)
+				var t T
+				switch v := rhs.(type) {
+				case VInt:
+					t = v.T
+				case VBool:
+					t = v.T
+				case VRef:
+					t = v.T
+				}
+				st.heap[gk] = []T{tStore(arr, r.T, t)}
+				return
+			}
+		}
+	}
+	panic("ghost assignment: unsupported lvalue in " + g.Src)
+}
+
+// entryFrame: objects that existed at function entry keep the values of every field the
+// contract does not allow to be assigned. This is the frame rule: it is justified by the
+// #frame obligation raised at every heap store of the same function (each store targets an
+// assignable location or an object allocated during the call).
+func (f *frame) entryFrame(st *State, hk string, arr []T) {
+	ex := f.ex
+	top := f
+	for top.inlined && top.caller != nil {
+		top = top.caller
+	}
+	if top.con == nil || top != ex.top || top.entry == nil {
+		return
+	}
+	entryArr, ok := top.entry.heap[hk]
+	if !ok {
+		return
+	}
+	// exceptions: refs whose field of this name is in the assigns clause
+	i := strings.LastIndex(hk, ".")
+	fname := hk[i+1:]
+	var exc []T
+	env := top.specEnv(top.entry, top.entry, nil)
+	for _, a := range top.con.Assigns {
+		switch n := a.(type) {
+		case *EField:
+			if n.Name == fname {
+				if r, ok := env.eval(n.X).(VRef); ok && strings.HasPrefix(hk, namedKey(r.St)+".") {
+					exc = append(exc, r.T)
+				}
+			}
+		case *ECall:
+			if n.Fn == "allfields" {
+				if id, ok := n.Args[0].(*EIdent); ok && strings.Contains(hk, "."+id.Name+".") {
+					return
+				}
+			}
+		}
+	}
+	q := "fr_" + sanitize(arr[0])
+	cond := []T{tLt("0", q), tLe(q, ex.heapTop())}
+	for _, e := range exc {
+		cond = append(cond, tNe(q, e))
+	}
+	var eqs []T
+	for ci := range arr {
+		eqs = append(eqs, tEq(tSel(arr[ci], q), tSel(entryArr[ci], q)))
+	}
+	st.assume(tForall(q, tImp(tAnd(cond...), tAnd(eqs...))))
+}
+
+// allocTypes: heap struct types that fn (or its in-repo callees) may allocate.
+func (p *Program) allocTypes(fn *ssa.Function, seen map[*ssa.Function]bool, out map[string]*types.Named) {
+	if seen[fn] {
+		return
+	}
+	seen[fn] = true
+	for _, b := range fn.Blocks {
+		for _, ins := range b.Instrs {
+			switch x := ins.(type) {
+			case *ssa.Alloc:
+				if n, ok := heapStructName(x.Type().(*types.Pointer).Elem()); ok && x.Heap && p.heapModelled(n) {
+					out[namedKey(n)] = n
+				}
+			case *ssa.Call:
+				if sc := x.Call.StaticCallee(); sc != nil && p.inRepo(sc) {
+					p.allocTypes(sc, seen, out)
+				}
+			}
+		}
+	}
+}
+
+// callFrame: after a modular call, fields of objects that existed before the call and are not
+// in the callee's assigns clause are unchanged; objects the callee allocated are arbitrary.
+func (f *frame) callFrame(st *State, pre *State, callee *ssa.Function, con *Contract, env *specEnv) {
+	ex := f.ex
+	types_ := map[string]*types.Named{}
+	ex.prog.allocTypes(callee, map[*ssa.Function]bool{}, types_)
+	for tk, n := range types_ {
+		u := n.Underlying().(*types.Struct)
+		var keys []string
+		for i := 0; i < u.NumFields(); i++ {
+			keys = append(keys, tk+"."+u.Field(i).Name())
+		}
+		for hk := range ex.prog.heapSorts {
+			if strings.HasPrefix(hk, tk+".$") {
+				keys = append(keys, hk)
+			}
+		}
+		for _, hk := range keys {
+			sorts := ex.prog.heapSorts[hk]
+			if sorts == nil {
+				continue
+			}
+			// make sure the pre-state array exists
+			var old []T
+			if a, ok := st.heap[hk]; ok {
+				old = a
+			} else {
+				for ci, s := range sorts {
+					old = append(old, ex.decls.named(fmt.Sprintf("H0_%s_%d", hk, ci), s))
+				}
+				if strings.Contains(hk, ".$") {
+					old = []T{ex.decls.named("H0_"+hk, sorts[0])}
+				}
+			}
+			arr := make([]T, len(sorts))
+			for ci, s := range sorts {
+				arr[ci] = ex.decls.fresh("Hc_"+hk, s)
+			}
+			i := strings.LastIndex(hk, ".")
+			fname := hk[i+1:]
+			var exc []T
+			skip := false
+			for _, a := range con.Assigns {
+				switch an := a.(type) {
+				case *EField:
+					if an.Name == fname {
+						if r, ok := env.eval(an.X).(VRef); ok && namedKey(r.St) == tk {
+							exc = append(exc, r.T)
+						}
+					}
+				case *ECall:
+					if an.Fn == "allfields" {
+						skip = true
+					}
+				}
+			}
+			st.heap[hk] = arr
+			if skip {
+				continue
+			}
+			q := "cf_" + sanitize(arr[0])
+			exists := []T{tAnd(tLt("0", q), tLe(q, ex.heapTop()))}
+			for _, fr := range pre.fresh {
+				exists = append(exists, tEq(q, fr))
+			}
+			cond := []T{tOr(exists...)}
+			for _, e := range exc {
+				cond = append(cond, tNe(q, e))
+			}
+			var eqs []T
+			for ci := range arr {
+				eqs = append(eqs, tEq(tSel(arr[ci], q), tSel(old[ci], q)))
+			}
+			st.assume(tForall(q, tImp(tAnd(cond...), tAnd(eqs...))))
+		}
+	}
+}
